@@ -32,14 +32,24 @@ class WordEngine(SX.Engine):
         super().__init__(*a, **kw)
         self.decomp = []      # list of (x: Q, lo var, hi var)
 
-    def split(self, x):
+    def split(self, x, base=None):
+        """x = lo + base * hi with 0 <= lo < base (base = 2^64 by default; 2^63 isolates the top bit of a word)"""
+        base = base or W
         for (y, lo, hi) in self.decomp:
-            if y.equals(x):
+            if y.equals(x) and self.base_of(lo) == base:
                 return lo, hi
         i = len(self.decomp)
-        lo, hi = Q.var("lo#%d" % i), Q.var("hi#%d" % i)
+        if base == W:
+            lo, hi = Q.var("lo#%d" % i), Q.var("hi#%d" % i)
+        else:
+            lo, hi = Q.var("low63#%d" % i), Q.var("top#%d" % i)
+            self.bases = getattr(self, "bases", {})
+            self.bases["low63#%d" % i] = base
         self.decomp.append((x, lo, hi))
         return lo, hi
+
+    def base_of(self, lo):
+        return getattr(self, "bases", {}).get(next(iter(lo.n.vars())), W)
 
     def rvalue(self, fr, r, st):
         k = r["k"]
@@ -89,6 +99,22 @@ class WordEngine(SX.Engine):
                 elif base == "Shr" and qb.is_poly() and qb.n.is_const() and qb.n.const_value() == 64:
                     lo, hi = self.split(qa)
                     val = hi
+                elif base == "Shr" and qb.is_poly() and qb.n.is_const() and qb.n.const_value() == 63 and self._is_u64(fr, r["a"]):
+                    # top bit of a word
+                    lo, hi = self.split(qa, 1 << 63)
+                    val = hi
+                    self.bits = getattr(self, "bits", [])
+                    self.bits.append(hi)
+                elif base == "Shl" and qb.is_poly() and qb.n.is_const() and qb.n.const_value() == 1 and self._is_u64(fr, r["a"]) and not (qa.is_poly() and qa.n.is_const()):
+                    # wrapping shift of a word by one: twice its low 63 bits
+                    lo, hi = self.split(qa, 1 << 63)
+                    val = lo * Q.const(2)
+                    self.evens = getattr(self, "evens", [])
+                    self.evens.append(val)
+                elif base == "BitOr" and any(qa.equals(e) for e in getattr(self, "evens", [])) and any(qb.equals(b_) for b_ in getattr(self, "bits", [])):
+                    val = qa + qb            # an even word OR a single bit
+                elif base == "BitOr" and any(qb.equals(e) for e in getattr(self, "evens", [])) and any(qa.equals(b_) for b_ in getattr(self, "bits", [])):
+                    val = qa + qb
                 elif base == "Shl" and qa.is_poly() and qa.n.is_const() and qb.is_poly() and qb.n.is_const():
                     val = Q.const(qa.n.const_value() << qb.n.const_value())
                 elif base in ("Eq", "Ne"):
@@ -100,12 +126,22 @@ class WordEngine(SX.Engine):
                     return val
         return super().rvalue(fr, r, st)
 
+    def _is_u64(self, fr, o):
+        p = op_place(o)
+        if p is not None:
+            l, projs = place_parts(p)
+            ty = fr.fn.local_ty(l)
+            if not projs:
+                return ty == "u64"
+            return ty.startswith("[u64;") and len(projs) == 1      # element of a limb array
+        return "k" in o and o["k"].get("ty") == "u64"
+
     def reduce(self, q):
-        """eliminate lo symbols: lo_i = x_i - 2^64 * hi_i"""
+        """eliminate lo symbols: lo_i = x_i - base * hi_i (base 2^64, or 2^63 for top-bit splits)"""
         for (x, lo, hi) in reversed(self.decomp):
             name = next(iter(lo.n.vars()))
             if name in q.vars():
-                q = q.subst(name, (x - Q.const(W) * hi).n)
+                q = q.subst(name, (x - Q.const(self.base_of(lo)) * hi).n)
         return q
 
 
@@ -589,6 +625,85 @@ def check_bitconv(res, facts, tier):
             rule.ok(key, "bit i of the result is input bit %s for every bit string; %d (N, length) cases" % ("i" if name.endswith("le") else "len-1-i", cases), f.loc)
 
 
+def check_mulword(res, facts, tier):
+    """BigInt::mul returns (low, high) with low + 2^(64N) high = a*b, and mul_low returns a*b mod 2^(64N), for ALL limb
+    contents: the schoolbook loops are unrolled for N = 1, 2, 3 (thorough: 4) by symbolic execution; every
+    `mac_with_carry` step introduces a (low word, high word) pair with low + 2^64 high = its exact u128 value (R-LIMB shows
+    the primitive computes that value); the sum of the result limbs minus the product of the operands must then reduce
+    to zero (mul) / to a multiple of 2^(64N) (mul_low) as a polynomial identity in the limbs and high words."""
+    rule = res.rule("R-MULWORD", "BigInt::mul / mul_low equal the integer product (resp. its low half) for all limb contents [word-level polynomial identity, N = 1..3]", 2)
+    BIG = "ark_ff::biginteger::BigInt"
+    ns = (1, 2, 3, 4) if tier == "thorough" else (1, 2, 3)
+    for name in ("mul", "mul_low"):
+        fs = [f for f in facts.fns(unit="ws", crate="ark_ff") if f.kind != "Closure" and f.name == name and f.self_head == BIG and (f.trait_impl or "").endswith("BigInteger")]
+        key = "ark_ff|BigInt::%s" % name
+        if not fs:
+            rule.bad(key, "anchor missing")
+            continue
+        fn = fs[0]
+        verdict = None
+        for N in ns:
+            wm = word_models()
+
+            def _into_iter(ex_, st, fr, t, a):
+                return a[0]
+
+            def _next(ex_, st, fr, t, a):
+                r = ex_.deref(a[0])
+                if isinstance(r, SX.Obj) and set(r.fields) >= {0, 1} and isinstance(r.fields[0], int) and isinstance(r.fields[1], int):
+                    s0, e0 = r.fields[0], r.fields[1]
+                    if s0 < e0:
+                        r.fields[0] = s0 + 1
+                        return SX.some(s0)
+                    return SX.none()
+                return NotImplemented
+            wm.on(SX.by(None, "into_iter"), _into_iter)
+            wm.on(SX.by(None, "next"), _next)
+            wm.on(SX.by(None, "is_zero"), lambda ex_, st, fr, t, a: False)     # general position; the zero shortcut returns zero
+            ex = WordEngine(facts, "ws", wm, env={"N": N}, max_paths=20, max_depth=6, inline_limit=400, max_visits=4 * N * N + 8)
+            a = SX.Obj(adt="BigInt", fields={0: SX.Obj(adt="array", fields={i: Q.var("a%d" % i) for i in range(N)})})
+            b = SX.Obj(adt="BigInt", fields={0: SX.Obj(adt="array", fields={i: Q.var("b%d" % i) for i in range(N)})})
+            try:
+                paths = [p_ for p_ in ex.run(fn, [SX.Ref(SX.Cell(a)), SX.Ref(SX.Cell(b))]) if "panic" not in p_.flags]
+            except Exception as e:
+                verdict = ("undecided", "N = %d: evaluation failed: %s" % (N, str(e)[:80]))
+                break
+            if len(paths) != 1 or paths[0].flags:
+                verdict = ("undecided", "N = %d: not a single straight evaluation (%d paths, flags %s)" % (N, len(paths), sorted(paths[0].flags)[:4] if paths else []))
+                break
+
+            def limbs(o):
+                o = ex.deref(o)
+                arr = ex.deref(o.fields[0])
+                return [SX.q_of(ex.deref(arr.fields[i])) for i in range(N)]
+            ret = ex.deref(paths[0].ret)
+            try:
+                out = limbs(ret.fields[0]) + limbs(ret.fields[1]) if name == "mul" else limbs(ret)
+            except Exception as e:
+                verdict = ("undecided", "N = %d: result is not a BigInt of word values (%s)" % (N, str(e)[:60]))
+                break
+            if any(x is None for x in out):
+                verdict = ("undecided", "N = %d: a result limb is not a word expression" % N)
+                break
+            A_ = sum((Q.var("a%d" % i) * Q.const(W ** i) for i in range(N)), Q.const(0))
+            B_ = sum((Q.var("b%d" % i) * Q.const(W ** i) for i in range(N)), Q.const(0))
+            R_ = sum((x * Q.const(W ** k) for k, x in enumerate(out)), Q.const(0))
+            d = ex.reduce(R_ - A_ * B_)
+            if name == "mul":
+                good = d.is_zero()
+            else:
+                good = d.is_poly() and all(c % (W ** N) == 0 for c in d.n.t.values())
+            if not good:
+                verdict = ("violation", "N = %d: sum of the result limbs minus a*b reduces to %s, not to %s: the result is not the %s for every operand" % (N, str(d)[:120], "0" if name == "mul" else "a multiple of 2^(64N)", "2N-limb product" if name == "mul" else "product modulo 2^(64N)"))
+                break
+        if verdict is None:
+            rule.ok(key, "%s for all limb contents, N in %s (identity modulo %s word decompositions per N)" % ("low + 2^(64N) high = a*b" if name == "mul" else "result = a*b mod 2^(64N)", list(ns), "N^2"), fn.loc)
+        elif verdict[0] == "violation":
+            rule.bad(key, verdict[1], fn.loc)
+        else:
+            rule.undecided(key, verdict[1], fn.loc)
+
+
 def check_mulhigh(res, facts):
     """mul_high has no algorithm of its own: it is the high half of `mul` on every path.  A shortcut (e.g. `return zero`
     when the bit lengths add up to at most 64N + 1) makes it disagree with mul().1 on the boundary."""
@@ -674,6 +789,7 @@ def run(ctx, res):
     check_recode(res, facts)
     check_digitrange(res, facts)
     check_mulhigh(res, facts)
+    check_mulword(res, facts, ctx.tier)
     check_shifts(res, facts, ctx.tier)
     check_bitconv(res, facts, ctx.tier)
     return {
